@@ -225,7 +225,7 @@ func TestRegisterModel(t *testing.T) {
 	q = &c20Query{WhereK: 10, Grid: true, Items: []c20Item{{Kind: "get", Key: "k", Alias: "g"}, {Kind: "set", Key: "k", VKind: "col", VCol: "id"}}}
 	r1, _ = c20Model(q, table, model)
 	eq("grid", r1, `[[{"g":null}],[{"g":1}]]`)
-	// a ragged source [row1, [row2], row3]: source order; the recorded finding's order takes row2 first
+	// a ragged source [row1, [row2], row3]: source order
 	model = map[string]any{}
 	q = &c20Query{WhereK: -1, Ragged: true, Items: []c20Item{{Kind: "get", Key: "k", Alias: "g"}, {Kind: "set", Key: "k", VKind: "col", VCol: "id"}}}
 	r1, _ = c20Model(q, table, model)
@@ -233,11 +233,7 @@ func TestRegisterModel(t *testing.T) {
 	if model["k"] != 3.0 {
 		t.Errorf("k=%v", model["k"])
 	}
-	model = map[string]any{}
-	q.nestedFirst = true
-	r1, _ = c20Model(q, table, model)
-	eq("ragged, inner arrays first", r1, `[{"g":2},[{"g":null}],{"g":1}]`)
-	q.WhereK, q.nestedFirst = 10, false
+	q.WhereK = 10
 	model = map[string]any{}
 	r1, _ = c20Model(q, table, model)
 	eq("ragged with WHERE", r1, `[{"g":null},[],{"g":1}]`)
